@@ -15,12 +15,12 @@ def main(tier):
     d = V.rundir('c14')
     rnd = random.Random(V.seed())
     cases = []
-    for _ in range(400 if quick else 3000):
+    for _ in range(700 if quick else 3000):
         n, es = c19.random_graph(rnd, rnd.randint(2, 14 if quick else 25))
         sizes = [(rnd.choice([10, 20, 30, 40]), rnd.choice([10, 20, 30])) for _ in range(n)]
         cases.append((n, sizes, [(rnd.randint(0, 300), rnd.randint(0, 300)) for _ in range(n)], es, rnd.randint(0, 127)))
     # trees with isomorphic sibling subtrees and narrow/wide nodes mixed (the whole-graph-is-a-tree path returns the symmetric layout as it is)
-    for _ in range(250 if quick else 2500):
+    for _ in range(500 if quick else 2500):
         n, es = c19.bushy_tree(rnd)
         if not 2 <= n <= (16 if quick else 25):
             continue
